@@ -236,6 +236,8 @@ func rangeLimitIterator(i Iterator, r *Range, l *Limit, reverse bool) *RangeLimi
 				it.Iterator.SeekToFirst()
 				if it.Iterator.Valid() && bytes.Compare(it.Iterator.RefKey(), r.Max) == 1 {
 					dbLog.Infof("iterator seek to last key %v should not great than seek to max %v", it.Iterator.RefKey(), r.Max)
+					// no key is less than or equal to max, so the reverse range is empty
+					it.Iterator.Prev()
 				}
 			}
 			if r.Type&common.RangeROpen > 0 {
